@@ -109,9 +109,19 @@ func Run(w *sim.World, opt Options) *Outcome {
 	issued := make([]int, c+1)
 	uniq := 0
 	pending := map[int]*Op{} // client -> op in flight
+	elections := 0
+	// adaptive workload: after a leader change following an acknowledged Put, the next
+	// request is usually a Get of that key (a lost acknowledged write becomes visible)
+	ackedPutKey, electionsAtAck := "", 0
 	r.NextReq = func(k int) (tla.Value, bool) {
 		if issued[k] >= nOps {
 			return tla.Value{}, false
+		}
+		if ackedPutKey != "" && elections > electionsAtAck && w.Choose(sim.KOp, 4) != 0 {
+			key := ackedPutKey
+			ackedPutKey = ""
+			out.Probes["get_after_leader_change"]++
+			return tla.MakeRecord([]tla.RecordField{{Key: S("type"), Value: S("get")}, {Key: S("key"), Value: S(key)}}), true
 		}
 		key := keys[w.Choose(sim.KOp, len(keys))]
 		if w.Choose(sim.KOp, 2) == 0 {
@@ -133,7 +143,6 @@ func Run(w *sim.World, opt Options) *Outcome {
 		prevTerm[i] = r.G("currentTerm", i).AsNumber()
 		prevCommit[i] = r.G("commitIndex", i).AsNumber()
 	}
-	elections := 0
 	seenFig8 := false
 	type committed struct {
 		entry tla.Value
@@ -332,6 +341,9 @@ func Run(w *sim.World, opt Options) *Outcome {
 						out.fail("response_for_other_request", "client %d asked about key %s and was answered about key %v", cl, op.Key, mr.ApplyFunction(S("key")))
 					}
 					out.History = append(out.History, *op)
+					if op.Put {
+						ackedPutKey, electionsAtAck = op.Key, elections
+					}
 					pending[cl] = nil
 				}
 			}
